@@ -1663,6 +1663,9 @@ func (t *Tree) RemoveQuotes(internals, tips bool, namemap map[string]string) err
 	for _, n := range t.Nodes() {
 		if (tips && n.Tip()) || (internals && !n.Tip()) {
 			name := n.Name()
+			if name == "" {
+				continue
+			}
 			first := name[0]
 			last := name[len(name)-1]
 			firstpos := 0
@@ -1705,6 +1708,9 @@ func (t *Tree) AddQuotes(internals, tips bool, namemap map[string]string) error 
 	for _, n := range t.Nodes() {
 		if (tips && n.Tip()) || (internals && !n.Tip()) {
 			name := n.Name()
+			if name == "" {
+				continue
+			}
 			first := name[0]
 			last := name[len(name)-1]
 			firstpos := 0
